@@ -47,6 +47,15 @@ def free_names(fnode):
             stores.add(n.id)
         if isinstance(n, ast.ExceptHandler) and n.name:
             stores.add(n.name)
+        # parameters of lambdas and nested functions are bound in their own scope (a coarse, sound-enough treatment: bound somewhere in the function)
+        if isinstance(n, (ast.Lambda, ast.FunctionDef)) and n is not fnode:
+            a = n.args
+            for x in a.posonlyargs + a.args + a.kwonlyargs:
+                stores.add(x.arg)
+            if a.vararg:
+                stores.add(a.vararg.arg)
+            if a.kwarg:
+                stores.add(a.kwarg.arg)
     out = {}
     for n in ast.walk(fnode):
         if isinstance(n, ast.Name) and isinstance(n.ctx, ast.Load) and n.id not in params and n.id not in stores:
